@@ -70,6 +70,26 @@ def regen_compu_limit(ctx):
 
 GENERATORS = list(globals().get("GENERATORS", [])) + [regen_compu_limit]
 
+
+# --- tie of kind (1) (task W20): Gen/CompuScaleApplies.lean is regenerated from CompuScale.applies (and Limit.value) of the current source
+# and proved equal to the hand-written Scale.applies (Proofs/CompuScaleAppliesGenEq.lean); its complies_to_lower / complies_to_upper are the
+# generated functions of Gen/CompuLimit.lean
+LEAN_TARGETS = LEAN_TARGETS + ["OdxVerif.Props.C07GenScale"]
+THEOREMS = THEOREMS + [P + t for t in ["gen_scaleApplies_eq", "C07_gen_scale_applies_tie", "C07_gen_scale_applies_ok_iff", "C07_gen_scale_applies"]]
+TRUSTED = TRUSTED + ["translator harness/extract/py2lean.py + primitives lean/OdxVerif/Model/PyRt.lean for CompuScale.applies and Limit.value "
+                     "(self.lower_limit / self.upper_limit = the fields lo / hi of the model's Scale; == on AtomicOdxType values = the model's Val.pyEq, "
+                     "None == None and value != None by Py.optEq)"]
+
+
+def regen_scale_applies(ctx):
+    """Gen/CompuScaleApplies.lean from the current source; Unsupported (source left the translator's subset) = broken obligation"""
+    import common
+    from extract import py2lean
+    py2lean.regenerate_scale_applies(common.REPO, common.VERIF)
+
+
+GENERATORS = list(globals().get("GENERATORS", [])) + [regen_scale_applies]
+
 TOL = Fr(1, 2**40)
 
 
@@ -777,3 +797,25 @@ def replay(ctx, data):
     if "image" in w:
         mc.physical(w["image"])
     return not any(v[0] == clause for v in mc.viol)
+
+
+# --- tie of kind (1) (task W20): Gen/CompuSegmentApplies.lean is regenerated from RatFuncSegment.applies and LinearSegment.physical_applies /
+# internal_applies of the current source and proved equal to the hand-written RatSeg.applies / LinSeg.physApplies / LinSeg.intApplies
+# (Proofs/CompuSegmentAppliesGenEq.lean). NOTE: this block sits behind the helper definitions of the module; it only extends the lists.
+LEAN_TARGETS = LEAN_TARGETS + ["OdxVerif.Props.C07GenSegment"]
+THEOREMS = THEOREMS + [P + t for t in ["gen_ratSegApplies_eq", "gen_linSegPhysApplies_eq", "gen_linSegIntApplies_eq", "typeTest_eq",
+                                       "C07_gen_segment_applies_tie", "C07_gen_ratfunc_applies"]]
+TRUSTED = TRUSTED + ["translator harness/extract/py2lean.py + primitives lean/OdxVerif/Model/PyRt.lean for RatFuncSegment.applies, "
+                     "LinearSegment.physical_applies / internal_applies (domain_type / physical_type / internal_type and the limit attributes = "
+                     "fields of the model's RatSeg / LinSeg; DataType.python_type = identity on DType; isinstance(v, int|float), "
+                     "issubclass(T, float), isinstance(v, T) = the glue valIsInt / valIsFloat / DType.isFloat / valIsInst of the generated file)"]
+
+
+def regen_segment_applies(ctx):
+    """Gen/CompuSegmentApplies.lean from the current source; Unsupported (source left the translator's subset) = broken obligation"""
+    import common
+    from extract import py2lean
+    py2lean.regenerate_segment_applies(common.REPO, common.VERIF)
+
+
+GENERATORS = list(globals().get("GENERATORS", [])) + [regen_segment_applies]
